@@ -90,6 +90,39 @@ class World:
         self.sync = [1, 1]
 
 
+FILE_SPECS = [{"src": "fixture", "name": n} for n in ("issue109/filter_lfo.sunvox", "issue54/test1.sunvox", "module-multiselect.sunvox", "single-fm.sunvox", "supertracks.sunvox")]
+
+
+class FileWorld(World):
+    """The same world, but the project comes out of the reader (incl. a file stamped with an
+    old SunVox version, whose module numbers the loader narrows by design *at load time*)."""
+
+    def __init__(self, spec):
+        from .. import files
+
+        ctx = Ctx(())
+        with active(ctx):
+            self.project = read_sunvox_file(ctx.new_stream(files.materialize(spec), "arg"))
+        env.LOG.take()
+        self.pattern = next(p for p in self.project.patterns if isinstance(p, Pattern))
+        self.cells = [[[int(n.note), n.vel, n.module, n.ctl, n.val] for n in line] for line in self.pattern.data]
+        self.viz = [int(m.visualization) if m is not None else 0 for m in self.project.modules]
+        self.midi = [[bool(m.midi_in_always), m.midi_in_channel] if m is not None else [False, 0] for m in self.project.modules]
+        self.sync = [int(self.project.receive_sync_midi), int(self.project.receive_sync_other)]
+
+
+def hold(w):
+    """References to the notes, taken once (at setup / after a restart) like a caller would keep them."""
+    w.held = [[n for n in line] for line in w.pattern.data]
+
+
+def raw_first(w, violations, i, when):
+    """Pattern.raw_data against the model BEFORE anything touches pattern.data again."""
+    want = b"".join(struct.pack("<BBHHH", *c) for row in w.cells for c in row)
+    if w.pattern.raw_data != want:
+        violations.append(_v("pattern_raw_data_row_major", when=when, detail={"op": i}))
+
+
 def check_note(w, l, t, violations, i, wrote=None):
     n = w.pattern.data[l][t]
     note, vel, module, ctl, val = w.cells[l][t]
@@ -151,15 +184,26 @@ def execute(case):
         k = op["k"]
         if k == "setup":
             w = World(1 + op.get("lines", 3) % 8, 1 + op.get("tracks", 2) % 4, op.get("nmods", 2) % 4)
+            hold(w)
             log.append((i, "setup"))
+            continue
+        if k == "setup_file":
+            w = FileWorld(FILE_SPECS[op.get("f", 0) % len(FILE_SPECS)])
+            hold(w)
+            probes["world_from_file"] = probes.get("world_from_file", 0) + 1
+            log.append((i, "setup_file", op.get("f", 0) % len(FILE_SPECS)))
             continue
         if w is None:
             w = World(2, 2, 1)
+            hold(w)
         lines, tracks = len(w.cells), len(w.cells[0])
         try:
             if k in ("nsub", "nword", "nprim"):
                 l, t = op["l"] % lines, op["t"] % tracks
-                n = w.pattern.data[l][t]
+                held = bool(op.get("held"))
+                n = w.held[l][t] if held else w.pattern.data[l][t]
+                if held:
+                    probes["write_through_held_reference"] = probes.get("write_through_held_reference", 0) + 1
                 c = w.cells[l][t]
                 v = op["v"]
                 wrote = None
@@ -201,6 +245,20 @@ def execute(case):
                         n.module = x
                         c[2] = x
                     wrote = f
+                if held:
+                    pending = []
+                    raw_first(w, pending, i, "after_write_through_held_reference")
+                    if n is not w.pattern.data[l][t]:
+                        # the pattern has replaced its Note objects since the reference was taken
+                        # (nothing forbids that): the write went to a detached note, so the model
+                        # must not expect it - resynchronise instead of judging
+                        probes["held_reference_was_stale"] = probes.get("held_reference_was_stale", 0) + 1
+                        cur = w.pattern.data[l][t]
+                        w.cells[l][t] = [int(cur.note), cur.vel, cur.module, cur.ctl, cur.val]
+                        hold(w)
+                        wrote = None
+                    else:
+                        violations.extend(pending)
                 check_note(w, l, t, violations, i, wrote)
                 check_pattern_raw(w, violations, i)
             elif k == "image":
@@ -209,6 +267,7 @@ def execute(case):
                 img = b"".join(struct.pack("<BBHHH", *c) for row in cells for c in row)
                 w.pattern.raw_data = img
                 w.cells = cells
+                hold(w)
                 if w.pattern.raw_data != img:
                     violations.append(_v("pattern_image_identity", when="live", detail={"op": i}))
                 for l in range(lines):
@@ -217,7 +276,8 @@ def execute(case):
                 probes["pattern_image_loaded"] = probes.get("pattern_image_loaded", 0) + 1
             elif k in ("vsub", "vword"):
                 mods = w.project.modules
-                mi = op["m"] % len(mods)
+                live = [j for j, x in enumerate(mods) if x is not None]
+                mi = live[op["m"] % len(live)]
                 m = mods[mi]
                 if k == "vword":
                     word = valid_viz_word(op["v"])
@@ -255,7 +315,8 @@ def execute(case):
                     check_viz(w, mi, m.visualization, violations, i, f)
             elif k == "midi":
                 mods = w.project.modules
-                mi = op["m"] % len(mods)
+                live = [j for j, x in enumerate(mods) if x is not None]
+                mi = live[op["m"] % len(live)]
                 m = mods[mi]
                 if op["f"] % 2 == 0:
                     m.midi_in_always = bool(op["v"] & 1)
@@ -292,12 +353,15 @@ def execute(case):
                 if pd1 != pd2:
                     violations.append(_v("pattern_image_identity", when="resave", detail={"op": i}))
                 w.project = loaded
-                w.pattern = loaded.patterns[0]
+                w.pattern = next(pp for pp in loaded.patterns if isinstance(pp, Pattern))
+                hold(w)
                 check_pattern_raw(w, violations, i)
                 for l in range(lines):
                     for t in range(tracks):
                         check_note(w, l, t, violations, i, "restart")
                 for mi, m in enumerate(loaded.modules):
+                    if m is None:
+                        continue
                     if int(m.visualization) != w.viz[mi]:
                         violations.append(_v("subfield_write", word="visualization", field="word", what="after_restart", detail={"op": i, "got": hex(int(m.visualization)), "want": hex(w.viz[mi])}))
                         w.viz[mi] = int(m.visualization)
@@ -333,7 +397,10 @@ def execute(case):
 
 def generate(seed, i, tier="quick"):
     r = seeds.rng(seed, "c12hist", i)
-    ops = [{"k": "setup", "lines": r.randrange(8), "tracks": r.randrange(4), "nmods": r.randrange(4)}]
+    if r.random() < 0.2:
+        ops = [{"k": "setup_file", "f": r.randrange(5)}]
+    else:
+        ops = [{"k": "setup", "lines": r.randrange(8), "tracks": r.randrange(4), "nmods": r.randrange(4)}]
     kinds = ["nsub"] * 6 + ["nword"] * 2 + ["nprim"] * 2 + ["image", "vsub", "vsub", "vsub", "vword", "midi", "midi", "sync", "sync", "save_load"]
     focus_cell = (r.randrange(8), r.randrange(4))
     for _ in range(r.randint(5, 60)):
@@ -341,7 +408,7 @@ def generate(seed, i, tier="quick"):
         op = {"k": k}
         if k in ("nsub", "nword", "nprim"):
             l, t = focus_cell if r.random() < 0.7 else (r.randrange(8), r.randrange(4))
-            op.update(l=l, t=t, f=r.randrange(12), v=r.choice([0, 0xFF, 0xFFFF, 1, 0x80, r.getrandbits(16), r.getrandbits(16)]))
+            op.update(l=l, t=t, f=r.randrange(12), v=r.choice([0, 0xFF, 0xFFFF, 1, 0x80, r.getrandbits(16), r.getrandbits(16)]), held=r.random() < 0.5)
         elif k == "image":
             op["seed"] = r.getrandbits(30)
         elif k in ("vsub", "vword"):
